@@ -417,6 +417,18 @@ pub fn run_generic(cx: &mut Ctx, fmt: Fmt) {
             check_compress(c, fmt, &v, "zeros(2^24-9) + 8 distinct bytes");
         });
     }
+    if !miri && cx.a.scale >= 0.49 {
+        // the largest length again, periodic with periods 7 and 15 (the number of tokens, and with it
+        // the fill of the last flag group and the size the 0x13 wrapper announces, differs from the
+        // all-zero case)
+        for p in [7usize, 15] {
+            cx.case("largest_input_periodic", |c| {
+                c.sit("largest_input");
+                let pat: Vec<u8> = (0..p).map(|i| (i as u8).wrapping_mul(37).wrapping_add(11)).collect();
+                check_compress(c, fmt, &lzgen::periodic(&pat, (1 << 24) - 1), &format!("periodic(p={}), n = 2^24-1", p));
+            });
+        }
+    }
     if !cx.a.quick() && !miri && cx.a.scale >= 0.99 {
         if fmt == Fmt::Lz10 {
             // (LZ10 only: the same input costs LZ13 more than the per-case CPU budget)
